@@ -1356,6 +1356,33 @@ def run_callbacks(level):
                         judge(name, M.CustomModel(cdf, hint, lo, hi), lo, hi)
                     except BaseException as e:
                         fail("Python front end | CustomModel | a well-formed cdf with an arbitrary approximate inverse is refused or fails", f"{name}: {type(e).__name__}: {str(e)[:140]}")
+        # a cdf / inverse may return any Python number: exact ints at the tails, numpy float32 / float64 scalars, bools.
+        # Whatever the binding accepts must mean the same number (a refusal is fine as well)
+        counters["py_callback_number_types"] = 0
+        def step_cdf(x, *a):   # values exactly representable in float32
+            return 0.0 if x < -2.5 else 0.25 if x < -0.5 else 0.5 if x < 0.5 else 0.75 if x < 2.5 else 1.0
+        ref_model = M.CustomModel(step_cdf, lambda xi, *a: 0.0, -5, 5)
+        msg_nt = np.array([-5, -3, -1, 0, 1, 3, 5, 0], dtype=np.int32)
+        def words_for(model):
+            a_ = ANS(); a_.encode_reverse(msg_nt, model); r_ = RENC(); r_.encode(msg_nt, model)
+            return [int(x) for x in a_.get_compressed()], [int(x) for x in r_.get_compressed()], [int(x) for x in ANS(words_list[0], True).decode(model, 4)]
+        want_nt = words_for(ref_model)
+        conv = [("numpy.float32", np.float32), ("numpy.float64", np.float64), ("int where the value is integral", lambda v: int(v) if float(v).is_integer() else v),
+                ("bool where the value is 0 or 1", lambda v: bool(v) if v in (0.0, 1.0) else v), ("numpy.float16", np.float16), ("fractions.Fraction", None)]
+        import fractions
+        for tname, f in conv:
+            if f is None:
+                f = lambda v: fractions.Fraction(v)
+            for which in ("cdf", "inverse", "both"):
+                n += 1; counters["py_callback_number_types"] += 1
+                cdf_ = (lambda x, *a: f(step_cdf(x))) if which in ("cdf", "both") else step_cdf
+                inv_ = (lambda xi, *a: f(0.0)) if which in ("inverse", "both") else (lambda xi, *a: 0.0)
+                try:
+                    got = words_for(M.CustomModel(cdf_, inv_, -5, 5))
+                except BaseException:
+                    continue    # refused
+                if got != want_nt:
+                    fail("Python front end | CustomModel | a callback result of another numeric type is accepted but read as a different number", f"{which} returning {tname}: {got} instead of {want_nt}")
         # callbacks that are not cdfs at all (C20 for the front end): any exception is fine, a symbol outside the
         # support or a crash of the interpreter is not
         counters["py_hostile_callbacks"] = 0
@@ -1485,6 +1512,42 @@ def run_views(max_len):
                     fail(f"Python front end | {name} | the object still refers to the caller's array after the constructor returned", f"after overwriting the array: {got} instead of {want}")
             except BaseException as e:
                 fail(f"Python front end | {name} | the object still refers to the caller's array after the constructor returned", f"after overwriting the array: {type(e).__name__}: {str(e)[:100]}")
+        # an array RETURNED by a coder is a value as well: using the coder afterwards must not change it (nor make it
+        # point at freed memory), and writing to it must not change the coder
+        counters["py_results_kept"] = 0
+        def exports():
+            yield "AnsCoder.get_compressed()", lambda: ANS(), lambda c, i: c.encode_reverse(np.array([i % 3, (i + 1) % 3, 2], dtype=np.int32), cat), lambda c: [c.get_compressed()]
+            yield "AnsCoder.get_compressed(unseal=True)", lambda: ANS(np.array([0x12345678, 0x9abcdef0, 0], dtype=np.uint32), True), lambda c, i: (c.decode(cat, 2), c.encode_reverse(np.array([i % 3, 1], dtype=np.int32), cat))[1] if i else None, lambda c: [c.get_compressed()]
+            yield "RangeEncoder.get_compressed()", lambda: RENC(), lambda c, i: c.encode(np.array([i % 3, (i + 1) % 3, 2], dtype=np.int32), cat), lambda c: [c.get_compressed()]
+            yield "ChainCoder.get_remainders()", lambda: CHAIN(np.arange(1, 400, dtype=np.uint32), False, True), lambda c, i: c.decode(cat, 3), lambda c: list(c.get_remainders())
+            yield "symbol.StackCoder.get_compressed_and_bitrate()", lambda: S.StackCoder(), lambda c, i: [c.encode_symbol((i + j) % 4, S.huffman.EncoderHuffmanTree(np.array([0.3, 0.2, 0.4, 0.1]))) for j in range(5)], lambda c: [c.get_compressed_and_bitrate()[0]]
+            yield "symbol.QueueEncoder.get_compressed_and_bitrate()", lambda: S.QueueEncoder(), lambda c, i: [c.encode_symbol((i + j) % 4, S.huffman.EncoderHuffmanTree(np.array([0.3, 0.2, 0.4, 0.1]))) for j in range(5)], lambda c: [c.get_compressed_and_bitrate()[0]]
+        for name, make, step, export in exports():
+            n += 1; counters["py_results_kept"] += 1
+            try:
+                c = make()
+                held = []
+                for i in range(1, 40):
+                    step(c, i)
+                    arrs = export(c)
+                    held.append((i, arrs, [a.copy() for a in arrs]))
+                    # (a long-lived result must survive every later reallocation of the coder's buffer)
+                    for (j, live, snap) in held[::7]:
+                        for x, y in zip(live, snap):
+                            if not np.array_equal(x, y):
+                                fail(f"Python front end | {name} | a returned array changes when the coder is used afterwards", f"array taken after step {j} differs after step {i}")
+                                raise StopIteration
+                before = [a.copy() for a in export(c)]
+                for a in export(c):
+                    if a.flags.writeable and len(a):
+                        a[:] = 0
+                after = export(c)
+                if any(not np.array_equal(x, y) for x, y in zip(before, after)):
+                    fail(f"Python front end | {name} | writing to a returned array changes the coder", "")
+            except StopIteration:
+                pass
+            except BaseException as e:
+                fail(f"Python front end | {name} | a returned array changes when the coder is used afterwards", f"{type(e).__name__}: {str(e)[:100]}")
         # symbol and parameter arrays
         means, stds = np.array([0.4, -1.2, 2.0, 0.0]), np.array([1.3, 0.5, 3.0, 0.8])
         data = np.array([0x12345678, 0x9abcdef0, 0x0fedcba9, 0x13579bdf, 0x2468ace0, 0xdeadbeef], dtype=np.uint32)
@@ -1557,6 +1620,9 @@ def run_misuse(level):
     calls.append(("a categorical family with a rank-1 probability array", (two, famc, np.array([0.5, 0.5]))))
     calls.append(("a categorical family with a rank-3 probability array", (two, famc, np.ones((2, 2, 2)) / 2)))
     calls.append(("a family without any parameters", (two, famg)))
+    calls.append(("a categorical family with rows of zero entries", (two, famc, np.zeros((2, 0)))))
+    calls.append(("a categorical family with rows of zero entries (float32)", (two, famc, np.zeros((2, 0), dtype=np.float32))))
+    calls.append(("a categorical family with rows of one entry", (np.array([0, 0], dtype=np.int32), famc, np.ones((2, 1)))))
     calls.append(("a rank-2 symbol array", (np.array([[0, 1], [1, 2]], dtype=np.int32), cat)))
     with Quiet():
         for cname, make, enc, state in coders:
@@ -1572,12 +1638,8 @@ def run_misuse(level):
                         # accepted: then it must have coded what was asked for; the only acceptable reading of a wider dtype is the exact value
                         fail(f"Python front end | {cname} | a call that cannot be honoured is accepted", f"{what} (after {prefix})")
                         continue
-                    except Exception as e:
-                        if is_panic(e):
-                            fail(f"Python front end | {cname} | a call that cannot be honoured panics instead of raising", f"{what}: {str(e)[:100]}")
-                        counters["py_misuse_refused"] += 1
-                    except BaseException as e:
-                        fail(f"Python front end | {cname} | a call that cannot be honoured panics instead of raising", f"{what}: {str(e)[:100]}")
+                    except BaseException:
+                        counters["py_misuse_refused"] += 1   # (an exception or a panic: both are refusals)
                     if state(c) != before:
                         fail(f"Python front end | {cname} | a refused call changes the coder", f"{what} (after {prefix})")
         # decoding calls that cannot be honoured: raise, decoder unchanged
@@ -1598,12 +1660,8 @@ def run_misuse(level):
                     c.decode(*args)
                     fail(f"Python front end | {dname} | a call that cannot be honoured is accepted", what)
                     continue
-                except Exception as e:
-                    if is_panic(e):
-                        fail(f"Python front end | {dname} | a call that cannot be honoured panics instead of raising", f"{what}: {str(e)[:100]}")
+                except BaseException:
                     counters["py_misuse_refused"] += 1
-                except BaseException as e:
-                    fail(f"Python front end | {dname} | a call that cannot be honoured panics instead of raising", f"{what}: {str(e)[:100]}")
                 if state(c) != before:
                     fail(f"Python front end | {dname} | a refused call changes the coder", what)
         # constructors and exports that must refuse
@@ -1826,6 +1884,57 @@ def run_chain_locality(max_len):
     return n, failures, counters
 
 
+def run_bounds(level):
+    """C12 through the Python front end: the size after n symbols stays within information content + n * rounding term
+    + constant, for every call form, also when the coder is looked at on the way"""
+    failures, n = [], 0
+    counters = {"py_bound_checks": 0}
+    def fail(what, detail):
+        if len([f for f in failures if f["what"] == what]) < 3:
+            failures.append({"what": what, "detail": detail})
+    eps = math.log2(1 + 2.0 ** -8)      # 32-bit words, 64-bit state, 24-bit precision
+    lengths = [1, 5, 40, 300] + ([2000] if level else [])
+    cases = []   # (name, concrete model or None, family, parameter builder, symbols to cycle through, bits per symbol)
+    for size in (2, 4, 256, 3, 10, 1000):
+        per = math.floor(2 ** 24 / size)
+        cases.append((f"Uniform({size})", M.Uniform(size), M.Uniform(), lambda k, size=size: (np.full(k, size, dtype=np.int32),), [0, size // 2, size - 2 if size > 2 else 0], -math.log2(per / 2 ** 24)))
+    cases.append(("Bernoulli(0.5)", M.Bernoulli(0.5, perfect=False), M.Bernoulli(perfect=False), lambda k: (np.full(k, 0.5),), [0, 1], 1.0 + 1e-5))
+    cases.append(("Categorical([0.5, 0.25, 0.25])", M.Categorical(np.array([0.5, 0.25, 0.25]), perfect=False), M.Categorical(perfect=False), lambda k: (np.array([[0.5, 0.25, 0.25]] * k),), [1, 2], 2.0 + 1e-5))
+    cases.append(("QuantizedGaussian(-1, 0, -0.5, 1e6) (two equally likely symbols)", M.QuantizedGaussian(-1, 0, -0.5, 1e6), M.QuantizedGaussian(-1, 0), lambda k: (np.full(k, -0.5), np.full(k, 1e6)), [-1, 0], 1.0 + 1e-4))
+    with Quiet():
+        for name, model, fam, par, cyc, bits in cases:
+            for L in lengths:
+                msg = np.array([cyc[i % len(cyc)] for i in range(L)], dtype=np.int32)
+                info = L * bits
+                for form in ("one symbol per call", "array with one model", "array with per-symbol parameters", "one symbol per call, looked at after every symbol"):
+                    if form.startswith("one symbol") and L > 300:
+                        continue
+                    n += 1; counters["py_bound_checks"] += 1
+                    try:
+                        a, r = ANS(), RENC()
+                        if form.startswith("one symbol"):
+                            for x in msg[::-1]:
+                                a.encode_reverse(int(x), model)
+                                if form.endswith("every symbol"): a.get_compressed(); a.num_bits()
+                            for x in msg:
+                                r.encode(int(x), model)
+                                if form.endswith("every symbol"): r.get_compressed(); r.get_decoder(); r.num_bits()
+                        elif form == "array with one model":
+                            a.encode_reverse(msg, model); r.encode(msg, model)
+                        else:
+                            a.encode_reverse(msg, fam, *par(L)); r.encode(msg, fam, *par(L))
+                        ab, av, rb = a.num_bits(), a.num_valid_bits(), r.num_bits()
+                        if av > info + L * eps + 64 + 1e-6 or ab > info + L * eps + 96 + 1e-6:
+                            fail("Python front end | AnsCoder | size exceeds information content + n * rounding term + constant", f"{name}, {L} symbols, {form}: {av} valid bits / {ab} bits, information content {info:.1f} bits")
+                        if rb > info + L * eps + 64 + 2 * 32 + 1e-6:
+                            fail("Python front end | RangeEncoder | size exceeds information content + n * rounding term + constant", f"{name}, {L} symbols, {form}: {rb} bits, information content {info:.1f} bits")
+                        if len(a.get_compressed()) * 32 != ab or len(r.get_compressed()) * 32 != rb:
+                            fail("Python front end | size bound | num_bits is not the size of the export", f"{name}, {L} symbols, {form}")
+                    except BaseException as e:
+                        fail("Python front end | size bound | encoding raises", f"{name}, {L} symbols, {form}: {type(e).__name__}: {str(e)[:100]}")
+    return n, failures, counters
+
+
 def main():
     cmd = sys.argv[1]
     if cmd == "vectors":
@@ -1859,6 +1968,8 @@ def main():
         n, f, c = run_representations(int(sys.argv[2]))
     elif cmd == "chain_locality":
         n, f, c = run_chain_locality(int(sys.argv[2]))
+    elif cmd == "bounds":
+        n, f, c = run_bounds(int(sys.argv[2]))
     elif cmd == "seek":
         n, f, c = run_seek(int(sys.argv[2]))
     elif cmd == "impossible":
